@@ -104,10 +104,16 @@ impl Matrix {
         // Grab the first 128 bits.
         let s = a.bit_len();
         if s <= 64 {
+            #[cfg(recmo_uint_verif)]
+            crate::verif_hooks::hit(crate::verif_hooks::Hook::lehmer_from_u64);
             Self::from_u64(a.try_into().unwrap(), b.try_into().unwrap())
         } else if s <= 128 {
+            #[cfg(recmo_uint_verif)]
+            crate::verif_hooks::hit(crate::verif_hooks::Hook::lehmer_from_u128);
             Self::from_u128_prefix(a.try_into().unwrap(), b.try_into().unwrap())
         } else {
+            #[cfg(recmo_uint_verif)]
+            crate::verif_hooks::hit(crate::verif_hooks::Hook::lehmer_from_shifted);
             let a = a >> (s - 128);
             let b = b >> (s - 128);
             Self::from_u128_prefix(a.try_into().unwrap(), b.try_into().unwrap())
@@ -183,6 +189,8 @@ impl Matrix {
         let mut k1 = 1_u64; // u1 = 0, v1 = 1
         let mut even = true;
         if a1 < LIMIT {
+            #[cfg(recmo_uint_verif)]
+            crate::verif_hooks::hit(crate::verif_hooks::Hook::lehmer_prefix_small_a1);
             return Matrix::IDENTITY;
         }
 
@@ -196,8 +204,12 @@ impl Matrix {
 
             // Test i + 1 (odd)
             if a2 >= v2 && a1 - a2 >= u2 {
+                #[cfg(recmo_uint_verif)]
+                crate::verif_hooks::hit(crate::verif_hooks::Hook::lehmer_prefix_a2_small_odd);
                 return Matrix(0, 1, u2, v2, false);
             } else {
+                #[cfg(recmo_uint_verif)]
+                crate::verif_hooks::hit(crate::verif_hooks::Hook::lehmer_prefix_a2_small_identity);
                 return Matrix::IDENTITY;
             }
         }
@@ -260,13 +272,19 @@ impl Matrix {
                 // Test i + 2 (even)
                 if a3 >= u3 && a2 - a3 >= v3 + v2 {
                     // Correct value is i + 2
+                    #[cfg(recmo_uint_verif)]
+                    crate::verif_hooks::hit(crate::verif_hooks::Hook::lehmer_even_i2);
                     Matrix(u2, v2, u3, v3, true)
                 } else {
                     // Correct value is i + 1
+                    #[cfg(recmo_uint_verif)]
+                    crate::verif_hooks::hit(crate::verif_hooks::Hook::lehmer_even_i1);
                     Matrix(u1, v1, u2, v2, false)
                 }
             } else {
                 // Correct value is i
+                #[cfg(recmo_uint_verif)]
+                crate::verif_hooks::hit(crate::verif_hooks::Hook::lehmer_even_i0);
                 Matrix(u0, v0, u1, v1, true)
             }
         } else {
@@ -276,13 +294,19 @@ impl Matrix {
                 // Test i + 2 (odd)
                 if a3 >= v3 && a2 - a3 >= u3 + u2 {
                     // Correct value is i + 2
+                    #[cfg(recmo_uint_verif)]
+                    crate::verif_hooks::hit(crate::verif_hooks::Hook::lehmer_odd_i2);
                     Matrix(u2, v2, u3, v3, false)
                 } else {
                     // Correct value is i + 1
+                    #[cfg(recmo_uint_verif)]
+                    crate::verif_hooks::hit(crate::verif_hooks::Hook::lehmer_odd_i1);
                     Matrix(u1, v1, u2, v2, true)
                 }
             } else {
                 // Correct value is i
+                #[cfg(recmo_uint_verif)]
+                crate::verif_hooks::hit(crate::verif_hooks::Hook::lehmer_odd_i0);
                 Matrix(u0, v0, u1, v1, false)
             }
         }
